@@ -211,6 +211,8 @@ def stimulus(b, rng, n_steps, max_clk=3):
             wd = w.getWidth()
             if b.info['family'] == 'fsm' and w.name == 'c':
                 v = ord(FSM_TEXT[(t // 2) % len(FSM_TEXT)])
+            elif w.name.startswith('gate') and wd > 1:
+                v = rng.choice([0, 0, 1, 2, (1 << wd) - 1, 1 << (wd - 1)])
             elif w.name.startswith('gate') or w.name in ('en', 'valid', 'tick', 'we', 'inc', 'sel', 'load'):
                 v = rng.choice([0, 1, 1, 1])
             elif w.name in ('rs', 'rst'):
